@@ -10,7 +10,7 @@
 (* of the word are tried in turn until a t exists (about one in four).     *)
 (* Every t is certified: the specification's N(t) is recomputed.           *)
 (***************************************************************************)
-EXTENDS JMap, Json, IOUtils, SequencesExt
+EXTENDS JMap, PolyFq, Json, IOUtils, SequencesExt
 OutDir == IOEnv.OUT
 Thorough == IOEnv.VERIF_TIER = "thorough"
 
@@ -25,6 +25,7 @@ F2Half == <<FqInv(Two), Zero>>
 QuadRoots2(b, c) ==
   LET disc == F2Sub(F2Sqr(b), F2Mul(<<Four, Zero>>, c))  r == F2Sqrt(disc) IN
   IF ~r[1] THEN <<>> ELSE << F2Mul(F2Sub(r[2], b), F2Half), F2Mul(F2Sub(F2Neg(r[2]), b), F2Half) >>
+KOfGen(g) == IF g = "G1" THEN FqPow(<<3>>, <<555>>) ELSE <<FqPow(<<3>>, <<556>>), FqPow(<<7>>, <<557>>)>>
 (* inputs with N(t) = n *)
 TsFor(g, n) ==
   LET ws == IF g = "G1" THEN QuadRoots1(One, FqNeg(n)) ELSE QuadRoots2(F2One, F2Neg(n)) IN
@@ -46,6 +47,44 @@ Find(g, i, k, shape, fuel) ==
 Inputs1 == FlattenSeq([i \in 1..6 |-> Find("G1", i - 1, 1, 0, 12)])
 Inputs2 == FlattenSeq([i \in 1..6 |-> FlattenSeq([sh \in 1..(IF Thorough THEN 4 ELSE 2) |->
               Find("G2", i - 1, 1, IF i = 6 THEN sh - 1 ELSE (sh - 1) * 3, 12)])])
+(* inputs whose SWU denominator x_den = -A' N is 1 or -1 (the Jacobian image has Z = +-1 without   *)
+(* having been normalised), and N = +-1                                                              *)
+SpecialN(g) == LET ia == KInv0(g, EpA(g)) IN << KNeg(g, ia), ia, KOne(g), KNeg(g, KOne(g)) >>
+SpecialTs(g) == FlattenSeq([i \in 1..4 |-> TsFor(g, SpecialN(g)[i])])
+Special1 == SpecialTs("G1")
+Special2 == SpecialTs("G2")
+ASSUME PrintT(<<"inputs with x_den = +-1 or N = +-1", Len(Special1), Len(Special2)>>)
+SpecialOps(g, ts) == FlattenSeq([i \in 1..Len(ts) |->
+   << [op |-> "swu", g |-> g, t |-> ts[i], cls |-> "swu-denominator-unit"],
+      [op |-> "map", g |-> g, u |-> ts[i], cls |-> "swu-denominator-unit"],
+      [op |-> "map2", g |-> g, u0 |-> ts[i], u1 |-> KOfGen(g), cls |-> "swu-denominator-unit"],
+      [op |-> "map2", g |-> g, u0 |-> KOfGen(g), u1 |-> ts[i], cls |-> "swu-denominator-unit"] >>])
+(* G1: the second intermediate, the projective numerator of g(x1),                                   *)
+(*      G = B'(B'^2 (1 + N)^3 + A'^3 N^2)     (x1 = B'(N + 1) / (-A' N)),                               *)
+(* with a stored form from the boundary catalogue - around (p-1)/2 (where G and -G share their high   *)
+(* words), next to 0 and p, one word only.  N from the cubic (PolyFq), then t as above.               *)
+GNum(n) == FqMul(E1pB, FqAdd(FqMul(FqSqr(E1pB), FqMul(FqSqr(FqAdd(One, n)), FqAdd(One, n))), FqMul(FqMul(FqSqr(E1pA), E1pA), FqSqr(n))))
+GPoly(v) == \* B'^3 (1+N)^3 + A'^3 B' N^2 - v  as a polynomial in N (ascending coefficients)
+  LET b3 == FqMul(FqSqr(E1pB), E1pB)  a3b == FqMul(FqMul(FqSqr(E1pA), E1pA), E1pB) IN
+  << FqSub(b3, v), FqMul(<<3>>, b3), FqAdd(FqMul(<<3>>, b3), a3b), b3 >>
+TsForG(v) == LET ns == RootsOf(DistinctRootPart(GPoly(v)), 1) IN
+             FlattenSeq([i \in 1..Len(ns) |-> SelectSeq(TsFor("G1", ns[i]), LAMBDA t : GNum(NOf("G1", t)) = v)])
+HalfQm == Div(Sub(Q, One), Two)
+(* first stored value base + d (d = 0, 1, ...) for which an input exists *)
+RECURSIVE GScan(_,_,_)
+GScan(base, d, fuel) ==
+  IF fuel = 0 THEN <<>>
+  ELSE LET ts == TsForG(OfStored(Add(base, FromInt(d)))) IN
+       IF Len(ts) > 0 THEN <<ts[1]>> ELSE GScan(base, d + 1, fuel - 1)
+GBases == << Sub(HalfQm, <<12>>), Add(HalfQm, One), Sub(HalfQm, Pow2(64)), Add(HalfQm, Pow2(200)),
+             One, Sub(Q, <<30>>), Pow2(64), Pow2(320), Mul(<<3>>, Pow2(320)) >>
+GInputs == FlattenSeq([i \in 1..(IF Thorough THEN 9 ELSE 5) |-> GScan(GBases[i], 0, 24)])
+ASSUME PrintT(<<"G1 inputs with a boundary stored numerator of g(x1)", Len(GInputs)>>)
+ASSUME TRUE
+GOps == FlattenSeq([i \in 1..Len(GInputs) |->
+   << [op |-> "swu", g |-> "G1", t |-> GInputs[i], cls |-> "numerator-stored-boundary"],
+      [op |-> "swu", g |-> "G1", t |-> FqNeg(GInputs[i]), cls |-> "numerator-stored-boundary"] >>])
+ASSUME ndJsonSerialize(OutDir \o "/swu-g1-gnum-100.script.ndjson", GOps)
 ASSUME PrintT(<<"inputs with a sparse stored intermediate", Len(Inputs1), Len(Inputs2)>>)
 ASSUME Len(Inputs1) >= 4 /\ Len(Inputs2) >= 6
 Ops(g, ts) == FlattenSeq([i \in 1..Len(ts) |->
@@ -54,4 +93,6 @@ Ops(g, ts) == FlattenSeq([i \in 1..Len(ts) |->
    \o (IF i % 3 = 1 THEN << [op |-> "map", g |-> g, u |-> ts[i], cls |-> "intermediate-stored-sparse"] >> ELSE <<>>)])
 ASSUME ndJsonSerialize(OutDir \o "/swu-g1-nsparse-100.script.ndjson", Ops("G1", Inputs1))
 ASSUME ndJsonSerialize(OutDir \o "/swu-g2-nsparse-100.script.ndjson", Ops("G2", Inputs2))
+ASSUME Len(Special1) = 0 \/ ndJsonSerialize(OutDir \o "/swu-g1-unitden-100.script.ndjson", SpecialOps("G1", Special1))
+ASSUME Len(Special2) = 0 \/ ndJsonSerialize(OutDir \o "/swu-g2-unitden-100.script.ndjson", SpecialOps("G2", Special2))
 =============================================================================
